@@ -5,7 +5,7 @@
 struct shim_logent { char kind; int slot; int fd; long long n, ret; char cls; };
 #define SHIM_MAXLOG 256
 extern struct shim_logent shim_logv[SHIM_MAXLOG];
-extern int shim_nlog, shim_ntotal, shim_log_enabled, shim_out_fd, shim_static_bufs;
+extern int shim_nlog, shim_ntotal, shim_log_enabled, shim_out_fd, shim_static_bufs, shim_disabled;
 ssize_t __real_read(int fd, void *buf, size_t n);
 ssize_t __real_write(int fd, const void *buf, size_t n);
 off_t __real_lseek(int fd, off_t off, int whence);
